@@ -1,6 +1,295 @@
 package main
 
-import "verifharness/lib"
+// The free-running part of C13: harness/cmd/c13race (no `verif` tag: the production configuration) is built with
+// `go build -race` against the same repository and run with real, unscheduled goroutines on shared loaders,
+// file based loaders, values and types.  Every report of the race detector and every functional failure that the
+// program notices is a violation of the property ("there is no data race and no crash").  This is a test, not a
+// proof: it is the evidence for the assumption of the atomic-segment model (Model/Conc.v) that the segments
+// between two yield points do not race, and the part of the check that sees a removed or narrowed lock.
 
-func runRace(cfg *lib.Config, res *lib.Result, rng *lib.Rng)      {}
-func replayRace(cfg *lib.Config, res *lib.Result, in interface{}) {}
+import (
+	"bytes"
+	"fmt"
+	"os"
+	"os/exec"
+	"path/filepath"
+	"regexp"
+	"sort"
+	"strings"
+	"sync"
+	"time"
+
+	"verifharness/lib"
+)
+
+var raceParts = []string{"loader", "files", "values", "types"}
+
+type raceParams struct {
+	Kind   string `json:"kind"`
+	Part   string `json:"part"`
+	N      int    `json:"n"`
+	Iters  int    `json:"iters"`
+	Rounds int    `json:"rounds"`
+	Seed   uint64 `json:"seed"`
+}
+
+type raceReport struct {
+	sig    string   // the two racing functions (top frames), sorted
+	funcs  []string // top frame of each access
+	frames []string // every function on the two access stacks
+	text   string
+}
+
+// buildRace builds the stress program with the race detector, in a module of its own under the output directory
+// (source copied from harness/cmd/c13race, go.mod pointing at the repository under test: $VERIF_REPO or /repo), so
+// that the build does not depend on harness/go.mod, which the driver rewrites for whichever check runs next.
+// The harness runs with /verif as working directory (driver).
+func buildRace(out string) (string, error) {
+	bin, err := filepath.Abs(filepath.Join(out, "c13race"))
+	if err != nil {
+		return "", err
+	}
+	src, err := os.ReadFile(filepath.Join("harness", "cmd", "c13race", "main.go"))
+	if err != nil {
+		return "", fmt.Errorf("harness/cmd/c13race/main.go not found from %s", mustWd())
+	}
+	repo := os.Getenv("VERIF_REPO")
+	if repo == "" {
+		repo = "/repo"
+	}
+	sum, err := os.ReadFile(filepath.Join(repo, "go.sum"))
+	if err != nil {
+		return "", err
+	}
+	mod := filepath.Join(out, "racemod")
+	_ = os.RemoveAll(mod)
+	if err := os.MkdirAll(mod, 0o755); err != nil {
+		return "", err
+	}
+	gomod := "module c13race\n\ngo 1.13\n\nrequire github.com/lyraproj/pcore v0.0.0\n\nreplace github.com/lyraproj/pcore => " + repo + "\n"
+	for name, content := range map[string][]byte{"main.go": src, "go.mod": []byte(gomod), "go.sum": sum} {
+		if err := os.WriteFile(filepath.Join(mod, name), content, 0o644); err != nil {
+			return "", err
+		}
+	}
+	cmd := exec.Command("go", "build", "-race", "-o", bin, ".")
+	cmd.Dir = mod
+	cmd.Env = append(os.Environ(), "CGO_ENABLED=1")
+	var buf bytes.Buffer
+	cmd.Stdout, cmd.Stderr = &buf, &buf
+	if err := cmd.Run(); err != nil {
+		return "", fmt.Errorf("go build -race: %v: %s", err, tail(buf.String(), 1500))
+	}
+	_ = os.RemoveAll(mod)
+	return bin, nil
+}
+
+func mustWd() string { d, _ := os.Getwd(); return d }
+
+func tail(s string, n int) string {
+	if len(s) > n {
+		return s[len(s)-n:]
+	}
+	return s
+}
+
+var (
+	accessHdr = regexp.MustCompile(`^(?:Previous )?(?:[Ww]rite|[Rr]ead|atomic write|atomic read) at 0x[0-9a-f]+ by (?:goroutine \d+|main goroutine):$`)
+	frameLine = regexp.MustCompile(`^  (\S+?)\(\)$`)
+)
+
+// parseRaces splits the stderr of a -race binary into reports
+func parseRaces(stderr string) []raceReport {
+	var out []raceReport
+	for _, blk := range strings.Split(stderr, "==================") {
+		if !strings.Contains(blk, "WARNING: DATA RACE") {
+			continue
+		}
+		lines := strings.Split(blk, "\n")
+		var funcs, frames []string
+		for i, l := range lines {
+			if accessHdr.MatchString(strings.TrimRight(l, " ")) && i+1 < len(lines) {
+				// top = the first frame that is not runtime / sync code
+				top := false
+				for j := i + 1; j < len(lines) && strings.HasPrefix(lines[j], "  "); j++ {
+					if m := frameLine.FindStringSubmatch(lines[j]); m != nil {
+						f := m[1]
+						frames = append(frames, shortFunc(f))
+						if top || strings.HasPrefix(f, "runtime.") || strings.HasPrefix(f, "sync/atomic.") || strings.HasPrefix(f, "sync.") {
+							continue
+						}
+						funcs = append(funcs, shortFunc(f))
+						top = true
+					}
+				}
+			}
+		}
+		s := append([]string(nil), funcs...)
+		sort.Strings(s)
+		out = append(out, raceReport{sig: strings.Join(s, " / "), funcs: funcs, frames: frames, text: strings.TrimSpace(blk)})
+	}
+	return out
+}
+
+func shortFunc(f string) string {
+	return strings.TrimPrefix(f, "github.com/lyraproj/pcore/")
+}
+
+// the unsynchronised lazily filled caches of shared values (ConcLazy.v models their logic; that the reads and
+// writes of the fields race in the sense of the Go memory model is the open finding lazy-cache-data-race)
+var lazyCacheFuncs = map[string]bool{
+	"types.(*Array).privateReducedType":  true,
+	"types.(*Array).privateDetailedType": true,
+	"types.(*Hash).privateReducedType":   true,
+	"types.(*Hash).privateDetailedType":  true,
+	"types.(*Hash).valueIndex":           true,
+}
+
+// A report belongs to the open finding when one of the two access stacks passes through one of those functions:
+// either the field itself is accessed, or an object that was built there, for the cache, is written (by its
+// constructor, or by Hash.privateReducedType filling it in after publication) while a goroutine that was handed
+// the pointer through the unsynchronised field reads it.
+func raceTags(r raceReport) []string {
+	for _, f := range r.frames {
+		if lazyCacheFuncs[f] {
+			return []string{"lazy-cache-data-race"}
+		}
+	}
+	return nil
+}
+
+func runRacePart(bin string, p raceParams, dir string, limit time.Duration) (stdout, stderr string, err error) {
+	args := []string{"-part", p.Part, "-dir", dir, "-n", fmt.Sprint(p.N), "-iters", fmt.Sprint(p.Iters),
+		"-rounds", fmt.Sprint(p.Rounds), "-seed", fmt.Sprint(p.Seed)}
+	cmd := exec.Command(bin, args...)
+	cmd.Env = append(os.Environ(), "GORACE=halt_on_error=0 exitcode=0")
+	var so, se bytes.Buffer
+	cmd.Stdout, cmd.Stderr = &so, &se
+	if err = cmd.Start(); err != nil {
+		return "", "", err
+	}
+	done := make(chan error, 1)
+	go func() { done <- cmd.Wait() }()
+	select {
+	case err = <-done:
+	case <-time.After(limit):
+		_ = cmd.Process.Kill()
+		<-done
+		err = fmt.Errorf("no result within %s", limit)
+	}
+	return so.String(), se.String(), err
+}
+
+func judgeRace(res *lib.Result, p raceParams, stdout, stderr string, err error, verbose bool) {
+	res.Evaluations++
+	res.Count("race.runs." + p.Part)
+	seen := map[string]bool{}
+	for _, r := range parseRaces(stderr) {
+		res.Count("race.reports." + p.Part)
+		if seen[r.sig] {
+			continue
+		}
+		seen[r.sig] = true
+		if verbose {
+			fmt.Printf("DATA RACE (%s): %s\n%s\n", p.Part, r.sig, r.text)
+		}
+		res.Violate(lib.Violation{Clause: "no-data-race",
+			What:  fmt.Sprintf("the race detector reports a data race between %s in the stress program part %q:\n%s", r.sig, p.Part, tail2(r.text, 2500)),
+			Input: p, Tags: raceTags(r)})
+	}
+	finished := false
+	for _, l := range strings.Split(stdout, "\n") {
+		switch {
+		case strings.HasPrefix(l, "FUNCTIONAL "):
+			res.Count("race.functional." + p.Part)
+			if verbose {
+				fmt.Println(l)
+			}
+			res.Violate(lib.Violation{Clause: "stress-functional", What: "free-running goroutines: " + strings.TrimPrefix(l, "FUNCTIONAL "), Input: p})
+		case strings.HasPrefix(l, "DONE "):
+			finished = true
+			var part string
+			var ops int
+			if n, _ := fmt.Sscanf(l, "DONE %s %d", &part, &ops); n == 2 {
+				res.Distribution["race.operations."+p.Part] += ops
+			}
+		}
+	}
+	if !finished {
+		what := fmt.Sprintf("the stress program part %q did not finish: %v\n%s", p.Part, err, tail(stderr, 2500))
+		if verbose {
+			fmt.Println(what)
+		}
+		res.Violate(lib.Violation{Clause: "no-crash", What: what, Input: p})
+	} else if len(seen) == 0 {
+		res.Nontrivial(fmt.Sprint("race-clean ", p.Part, p.N, p.Iters, p.Rounds, p.Seed))
+	}
+}
+
+func tail2(s string, n int) string {
+	if len(s) > n {
+		return s[:n] + " ..."
+	}
+	return s
+}
+
+func runRace(cfg *lib.Config, res *lib.Result, rng *lib.Rng) {
+	bin, err := buildRace(cfg.Out)
+	if err != nil {
+		// no C toolchain / no race runtime on this machine: recorded, not a verdict about the repository
+		// (the scheduled part has compiled the same packages already)
+		res.Extra["race_part"] = "NOT RUN: " + err.Error()
+		return
+	}
+	n, iters, rounds := 8, 150, 3
+	if cfg.Thorough() {
+		n, iters, rounds = 12, 400, 12
+	}
+	seed := rng.Next() % 1000000
+	type outT struct {
+		p              raceParams
+		stdout, stderr string
+		err            error
+	}
+	outs := make([]outT, len(raceParts))
+	var wg sync.WaitGroup
+	for i, part := range raceParts {
+		i, part := i, part
+		p := raceParams{Kind: "race", Part: part, N: n, Iters: iters, Rounds: rounds, Seed: seed}
+		wg.Add(1)
+		go func() {
+			defer wg.Done()
+			so, se, err := runRacePart(bin, p, filepath.Join(cfg.Out, "fs", "race-"+part), 150*time.Second)
+			outs[i] = outT{p, so, se, err}
+		}()
+	}
+	wg.Wait()
+	for _, o := range outs {
+		judgeRace(res, o.p, o.stdout, o.stderr, o.err, false)
+	}
+	res.Extra["race_part"] = fmt.Sprintf("race-detector build of cmd/c13race: parts %v, %d goroutines x %d iterations x %d worlds each, seed %d", raceParts, n, iters, rounds, seed)
+	_ = os.Remove(bin)
+}
+
+func replayRace(cfg *lib.Config, res *lib.Result, in interface{}) {
+	var p raceParams
+	lib.Remarshal(in, &p)
+	bin, err := buildRace(cfg.Out)
+	if err != nil {
+		fmt.Println("cannot build the stress program with the race detector: " + err.Error())
+		return
+	}
+	fmt.Printf("stress program part %q, %d goroutines x %d iterations x %d worlds, seed %d (free-running: a data race may need several runs to show)\n",
+		p.Part, p.N, p.Iters, p.Rounds, p.Seed)
+	for try := 0; try < 3; try++ {
+		so, se, err := runRacePart(bin, p, filepath.Join(cfg.Out, "fs", "race-"+p.Part), 300*time.Second)
+		before := len(res.Violations)
+		judgeRace(res, p, so, se, err, true)
+		if len(res.Violations) > before {
+			break
+		}
+		fmt.Println("run", try, ": no report")
+		p.Seed++
+	}
+	_ = os.Remove(bin)
+}
